@@ -176,8 +176,57 @@ func (e *e3) execute(k int64, torn bool, record bool) (x e3exec) {
 					stepErr = "NamedDataStore failed: " + err.Error()
 				}
 			}
+		case "DropColl":
+			// always the collection created last, by name: the handle may never have opened it
+			if len(colls) > 1 {
+				c := len(colls) - 1
+				err := b.DropDataStore(collNames[c])
+				if err == nil {
+					colls = colls[:c]
+					docs = docs[:c]
+					delete(ddocs, c)
+				} else if !vfs.Frozen() {
+					stepErr = "DropDataStore failed: " + err.Error()
+				}
+			}
+		case "Reopen":
+			// a clean close and a new handle in the same process: nothing is cached in the new handle
+			b.Close(context.Background())
+			synctest.Wait()
+			if vfs.Frozen() {
+				break
+			}
+			nb, err := rosmar.OpenBucket(url, "b1", rosmar.ReOpenExisting)
+			if err != nil {
+				if !vfs.Frozen() {
+					stepErr = "reopen failed: " + err.Error()
+				}
+				break
+			}
+			b = nb
+			colls[0] = b.DefaultDataStore()
+			for i := 1; i < len(colls); i++ {
+				colls[i] = nil
+			}
+		case "DelDDoc":
+			c := op.Coll % len(colls)
+			if colls[c] == nil {
+				colls[c], _ = b.NamedDataStore(collNames[c])
+			}
+			if _, ok := ddocs[c][op.Key]; !ok {
+				break
+			}
+			err := colls[c].(*rosmar.Collection).DeleteDDoc(op.Key)
+			if err == nil {
+				delete(ddocs[c], op.Key)
+			} else if !vfs.Frozen() {
+				stepErr = "DeleteDDoc failed: " + err.Error()
+			}
 		case "PutDDoc":
 			c := op.Coll % len(colls)
+			if colls[c] == nil {
+				colls[c], _ = b.NamedDataStore(collNames[c])
+			}
 			err := colls[c].(*rosmar.Collection).PutDDoc(context.Background(), op.Key, buildDDoc(op.Xattrs))
 			if err == nil {
 				if ddocs[c] == nil {
@@ -206,6 +255,9 @@ func (e *e3) execute(k int64, torn bool, record bool) (x e3exec) {
 			}
 		default:
 			op.Coll = op.Coll % len(colls)
+			if colls[op.Coll] == nil {
+				colls[op.Coll], _ = b.NamedDataStore(collNames[op.Coll])
+			}
 			d := docs[op.Coll][op.Key]
 			switch op.CasMode {
 			case "cur":
@@ -289,7 +341,14 @@ func (e *e3) verify(x e3exec, k int64, torn bool) *Violation {
 	where := fmt.Sprintf("crash at I/O boundary %d%s (in-flight operation: %s)", k, ifelseS(torn, " with a torn write", ""), e.opName(x.inflight))
 	b, err := rosmar.OpenBucket("rosmar://"+filepath.Join(dst, "b"), "b1", rosmar.ReOpenExisting)
 	if err != nil {
-		return &Violation{Tags: []string{"C10"}, Oracle: "crash.reopen", Msg: fmt.Sprintf("%s: the bucket cannot be reopened: %v", where, err), Step: x.inflight}
+		var files []string
+		ents, _ := os.ReadDir(filepath.Join(dst, "b"))
+		for _, ent := range ents {
+			if fi, e2 := ent.Info(); e2 == nil {
+				files = append(files, fmt.Sprintf("%s(%d)", ent.Name(), fi.Size()))
+			}
+		}
+		return &Violation{Tags: []string{"C10"}, Oracle: "crash.reopen", Msg: fmt.Sprintf("%s: the bucket cannot be reopened: %v (files left: %v)", where, err, files), Step: x.inflight}
 	}
 	defer func() {
 		_ = b.CloseAndDelete(context.Background())
@@ -415,7 +474,7 @@ func (e *e3) matches(b *rosmar.Bucket, cand e3snap) string {
 	helper := &e1{names: e.names, res: &RunResult{}}
 	keys := map[string]bool{}
 	for _, op := range e.p.Ops {
-		if op.Key != "" && op.Kind != "PutDDoc" {
+		if op.Key != "" && op.Kind != "PutDDoc" && op.Kind != "DelDDoc" {
 			keys[op.Key] = true
 		}
 	}
@@ -600,13 +659,28 @@ func GenE3(prop string, seed uint64) *Program {
 	}
 	w := weights{"Set": 8, "SetRaw": 2, "Add": 3, "WriteCas": 5, "Delete": 4, "Remove": 1, "Update": 3, "Incr": 3, "Touch": 2, "SetXattrs": 3, "UpdateXattrs": 2,
 		"WriteWithXattrs": 5, "WriteTombstoneWithXattrs": 2, "WriteResurrectionWithXattrs": 2, "WriteUpdateWithXattrs": 3, "DeleteWithXattrs": 2, "DeleteSubDocPaths": 1,
-		"RemoveXattrs": 1, "WriteSubDoc": 2, "SubdocInsert": 1, "SetWithMeta": 2, "DeleteWithMeta": 1, "Purge": 2, "CreateColl": 3, "PutDDoc": 3}
+		"RemoveXattrs": 1, "WriteSubDoc": 2, "SubdocInsert": 1, "SetWithMeta": 2, "DeleteWithMeta": 1, "Purge": 2, "CreateColl": 3, "PutDDoc": 3, "DropColl": 2, "Reopen": 2, "DelDDoc": 1}
 	n := 3 + r.Intn(8)
+	if r.Chance(20) {
+		// a collection created and filled by one handle is dropped through a later handle that has
+		// never opened it
+		set := g.op("Set")
+		set.Coll, set.ExpKind = 1, 0
+		prog.Ops = append(prog.Ops, Op{Kind: "CreateColl"}, set, Op{Kind: "Reopen"})
+		if r.Chance(30) {
+			prog.Ops = append(prog.Ops, g.op("Set"))
+			prog.Ops[len(prog.Ops)-1].Coll = 0
+		}
+		prog.Ops = append(prog.Ops, Op{Kind: "DropColl"})
+		n -= 2
+	}
 	for i := 0; i < n; i++ {
 		kind := g.weighted(w)
 		switch kind {
-		case "CreateColl":
-			prog.Ops = append(prog.Ops, Op{Kind: "CreateColl"})
+		case "CreateColl", "DropColl", "Reopen":
+			prog.Ops = append(prog.Ops, Op{Kind: kind})
+		case "DelDDoc":
+			prog.Ops = append(prog.Ops, Op{Kind: kind, Key: fmt.Sprintf("dd%d", 1+r.Intn(2)), Coll: r.Intn(2)})
 		default:
 			op := g.op(kind)
 			if op.ExpKind == 1 {
